@@ -151,8 +151,16 @@ def dt_to_http(dt: datetime.datetime) -> str:
 
     """
 
+    # NOTE: An aware datetime is converted to UTC first (a naive one is
+    #   assumed to be UTC already), so that the wall-clock time of another
+    #   zone is never labelled GMT.
+    if dt.tzinfo is not None:
+        dt = dt.astimezone(datetime.timezone.utc)
+
     # Tue, 15 Nov 1994 12:45:26 GMT
-    return dt.strftime('%a, %d %b %Y %H:%M:%S GMT')
+    # NOTE: strftime('%Y') does not zero-pad years below 1000 on every
+    #   platform, whereas an HTTP-date has a four-digit year.
+    return dt.strftime('%a, %d %b ') + '%04d' % dt.year + dt.strftime(' %H:%M:%S GMT')
 
 
 def http_date_to_dt(http_date: str, obs_date: bool = False) -> datetime.datetime:
